@@ -734,7 +734,9 @@ func (w *worker) scionLoop() {
 		}
 		good := scionHdr{srcIA: scn.DstIA, dstIA: scn.SrcIA, srcHost: srcHost.Unmap(), dstHost: dstHost.Unmap(),
 			srcPort: u.DstPort, dstPort: u.SrcPort}
+		pr := portBegin(rq)
 		w.mu.Lock()
+		rq.bindLower, w.prevArrival = w.prevArrival, arrival
 		if w.lateMode {
 			theClock.jump.Store(int64(time.Hour))
 			rq.late = true
@@ -780,6 +782,7 @@ func (w *worker) scionLoop() {
 			}
 			_, _ = w.connS.WriteToUDPAddrPort(d.raw, from)
 		}
+		pr.end()
 		w.mu.Lock()
 		if genuine != nil {
 			w.prevPkt = genuine
